@@ -491,15 +491,33 @@ fn run_storm(r: &Storm) -> CaseResult {
             }
         }));
     }
+    // progress-based pacing (independent of machine load): the next reset is issued once at
+    // least one lookup has completed since the previous one; a lookup that makes no progress
+    // for 60 s is a hang (harness health, never a violation)
+    let mut stalled = false;
     for _ in 0..r.resets {
         if stop.load(Ordering::Relaxed) {
             break;
         }
+        let before = lookups.load(Ordering::Relaxed);
         db.reset();
-        // a breath between resets so that lookups get through the refresh
-        std::thread::yield_now();
+        let t0 = std::time::Instant::now();
+        while lookups.load(Ordering::Relaxed) == before && !stop.load(Ordering::Relaxed) {
+            std::thread::yield_now();
+            if t0.elapsed() > Duration::from_secs(60) {
+                stalled = true;
+                break;
+            }
+        }
+        if stalled {
+            break;
+        }
     }
     stop.store(true, Ordering::Relaxed);
+    if stalled {
+        // the workers may be stuck: do not join them
+        return Err(Failure::new("HARNESS-PANIC", "no lookup completed for 60 s during the storm (hang or starved machine)"));
+    }
     for h in handles {
         let _ = h.join();
     }
@@ -545,6 +563,8 @@ enum COp {
     /// true = long TTL, false = expires immediately
     SetTtl(bool),
     Available,
+    /// remove the zone from the file, or put it back (at least one zone always stays)
+    Toggle(u8),
 }
 
 #[derive(Serialize, Deserialize, Debug, Clone)]
@@ -559,7 +579,8 @@ fn strat_chistory() -> BoxedStrategy<CHistory> {
         1 => Just(COp::Reset),
         2 => name.prop_map(COp::Replace),
         2 => any::<bool>().prop_map(COp::SetTtl),
-        1 => Just(COp::Available),
+        2 => Just(COp::Available),
+        2 => (0u8..6).prop_map(COp::Toggle),
     ];
     proptest::collection::vec(op, 1..25).prop_map(|ops| CHistory { ops }).boxed()
 }
@@ -568,8 +589,8 @@ fn zone_bytes(i: usize, ver: u32) -> Vec<u8> {
     tzfiles::fixed_tzif(&format!("N{}V{}", i + 1, ver), (i as i32 + 1) * 1000 + ver as i32)
 }
 
-fn write_tzdata(dir: &std::path::Path, versions: &[u32; 6], serial: u64) {
-    let zones: Vec<(String, Vec<u8>)> = (0..6).map(|i| (NAMES[i].to_string(), zone_bytes(i, versions[i]))).collect();
+fn write_tzdata(dir: &std::path::Path, versions: &[u32; 6], present: &[bool; 6], serial: u64) {
+    let zones: Vec<(String, Vec<u8>)> = (0..6).filter(|&i| present[i]).map(|i| (NAMES[i].to_string(), zone_bytes(i, versions[i]))).collect();
     let data = tzfiles::concatenated("2024a", &zones);
     let tmp = dir.join(format!("tzdata.tmp{serial}"));
     std::fs::write(&tmp, &data).unwrap();
@@ -592,8 +613,12 @@ fn test_chistory(h: &CHistory, cx: &mut Cx) -> CaseResult {
     }
     let _cleanup = Cleanup(base.clone());
     let mut versions = [1u32; 6];
+    let mut present = [true; 6];
+    // every set of names the file has held since the name index was last known to be rebuilt
+    let mut sets_since_refresh: Vec<[bool; 6]> = vec![present];
+    let mut index_must_be_current = false;
     let mut serial = 1u64;
-    write_tzdata(&base, &versions, serial);
+    write_tzdata(&base, &versions, &present, serial);
     let db = TimeZoneDatabase::from_concatenated_path(base.join("tzdata")).map_err(|e| Failure::new("from-concatenated-err", e.to_string()))?;
     let long = Duration::from_secs(3600);
     db.__verif_set_ttl(long, long);
@@ -612,6 +637,24 @@ fn test_chistory(h: &CHistory, cx: &mut Cx) -> CaseResult {
                 let i = *i as usize;
                 let q = variant(NAMES[i], *v);
                 let ctx = format!("step {step}: get({q:?})");
+                if !present[i] {
+                    // not in the file any more: only an entry cached inside its TTL may be served
+                    match db.get(&q) {
+                        Err(_) => {
+                            // (a failed lookup leaves an expired entry physically in the cache; the
+                            // TTL hook can revive it by lengthening the TTL, which a real database
+                            // with its constant TTL cannot - `floor` keeps describing that entry)
+                            cx.class("concat: lookup of a removed zone fails");
+                        }
+                        Ok(tz) => {
+                            let (id, ver) = decode(&tz);
+                            let cached = ttl_long && floor[i].is_some();
+                            ensure!(cached && id == i as i32 + 1 && (floor[i].unwrap()..=versions[i]).contains(&ver), "concat-serves-removed-zone", "{ctx}: the file no longer contains this zone and nothing may be cached (ttl_long={ttl_long}, cached floor {:?}), yet the lookup returned zone #{id} version {ver} (history: {:?})", floor[i], &h.ops[..step]);
+                            cx.class("concat: served from cache inside the TTL");
+                        }
+                    }
+                    continue;
+                }
                 let tz = db.get(&q).map_err(|e| Failure::new("concat-lookup-fails", format!("{ctx}: {e}")))?;
                 let (id, ver) = decode(&tz);
                 ensure!(id == i as i32 + 1, "concat-other-zones-data", "{ctx}: returned the data of zone #{id}");
@@ -632,11 +675,26 @@ fn test_chistory(h: &CHistory, cx: &mut Cx) -> CaseResult {
                 db.reset();
                 floor = [None; 6];
                 reset_pending = true;
+                index_must_be_current = true;
             }
             COp::Replace(i) => {
                 versions[*i as usize] += 1;
                 serial += 1;
-                write_tzdata(&base, &versions, serial);
+                write_tzdata(&base, &versions, &present, serial);
+            }
+            COp::Toggle(i) => {
+                let i = *i as usize;
+                if present[i] && present.iter().filter(|&&p| p).count() == 1 {
+                    continue;
+                }
+                present[i] = !present[i];
+                if present[i] {
+                    versions[i] += 1;
+                }
+                serial += 1;
+                write_tzdata(&base, &versions, &present, serial);
+                sets_since_refresh.push(present);
+                cx.class("concat: set of names in the file changes");
             }
             COp::SetTtl(l) => {
                 if !reset_pending {
@@ -648,15 +706,181 @@ fn test_chistory(h: &CHistory, cx: &mut Cx) -> CaseResult {
                 reset_pending = false;
                 let mut got: Vec<String> = db.available().map(|n| n.as_str().to_string()).collect();
                 got.sort();
-                let mut want: Vec<String> = NAMES.iter().map(|s| s.to_string()).collect();
-                want.sort();
-                ensure!(got == want, "concat-available-differs", "step {step}: available() = {got:?} want {want:?}");
+                let names_of = |mask: &[bool; 6]| -> Vec<String> {
+                    let mut v: Vec<String> = (0..6).filter(|&i| mask[i]).map(|i| NAMES[i].to_string()).collect();
+                    v.sort();
+                    v
+                };
+                let current = names_of(&present);
+                if index_must_be_current || !ttl_long {
+                    // after reset() or with an expired index: exactly what the file holds now
+                    ensure!(got == current, "concat-available-differs", "step {step}: available() = {got:?} but the file holds {current:?} and the index cannot be cached (reset or zero TTL; history: {:?})", &h.ops[..step]);
+                    cx.class_if(sets_since_refresh.len() > 1, "concat: available() after the set of names changed and a reset/expiry");
+                    sets_since_refresh = vec![present];
+                    index_must_be_current = false;
+                } else {
+                    // inside the TTL: a list the file held at some point since the last rebuild
+                    ensure!(sets_since_refresh.iter().any(|m| names_of(m) == got), "concat-available-differs", "step {step}: available() = {got:?} is none of the lists the file has held since the index was last rebuilt ({:?})", sets_since_refresh.iter().map(names_of).collect::<Vec<_>>());
+                }
             }
         }
     }
-    cx.nt_if(h.ops.iter().any(|o| matches!(o, COp::Replace(_) | COp::Reset | COp::SetTtl(_))));
+    cx.nt_if(h.ops.iter().any(|o| matches!(o, COp::Replace(_) | COp::Reset | COp::SetTtl(_) | COp::Toggle(_))));
     cx.class_if(seen_replace_then_get, "concat: re-read after replacement");
     Ok(())
+}
+
+// --- concatenated back-end: cold lookups racing with file replacement + reset ------------------------
+
+#[derive(Serialize, Deserialize, Debug, Clone)]
+struct ConcatRace {
+    threads: usize,
+    versions: u32,
+    /// dummy index entries, so that a cold lookup (index read + scan) takes long enough to overlap
+    padding: u32,
+    seed: u64,
+}
+
+fn write_padded_tzdata(dir: &std::path::Path, ver: u32, padding: u32, serial: u64) {
+    let mut zones: Vec<(String, Vec<u8>)> = (0..6).map(|i| (NAMES[i].to_string(), zone_bytes(i, ver))).collect();
+    let pad = tzfiles::fixed_tzif("PAD", 0);
+    for k in 0..padding {
+        zones.push((format!("Pad/P{k:07}"), pad.clone()));
+    }
+    let data = tzfiles::concatenated("2024a", &zones);
+    let tmp = dir.join(format!("tzdata.tmp{serial}"));
+    std::fs::write(&tmp, &data).unwrap();
+    let f = std::fs::OpenOptions::new().write(true).open(&tmp).unwrap();
+    f.set_modified(SystemTime::UNIX_EPOCH + Duration::from_secs(1_600_000_000 + 10 * serial)).unwrap();
+    drop(f);
+    std::fs::rename(&tmp, dir.join("tzdata")).unwrap();
+}
+
+/// Once `reset()` has returned after the file was replaced, a lookup that *starts* afterwards
+/// must see the new data - also when other lookups were in flight during the replacement.
+fn run_concat_race(r: &ConcatRace) -> CaseResult {
+    let n = DIR_COUNTER.fetch_add(1, Ordering::Relaxed);
+    let base = PathBuf::from(format!("{}/.work/c19/{}-{}-race", VERIF_DIR, std::process::id(), n));
+    let _ = std::fs::remove_dir_all(&base);
+    std::fs::create_dir_all(&base).unwrap();
+    struct Cleanup(PathBuf);
+    impl Drop for Cleanup {
+        fn drop(&mut self) {
+            let _ = std::fs::remove_dir_all(&self.0);
+        }
+    }
+    let _cleanup = Cleanup(base.clone());
+    write_padded_tzdata(&base, 1, r.padding, 1);
+    let db = Arc::new(TimeZoneDatabase::from_concatenated_path(base.join("tzdata")).map_err(|e| Failure::new("from-concatenated-err", e.to_string()))?);
+    db.__verif_set_ttl(Duration::from_secs(3600), Duration::from_secs(3600));
+    let visible = Arc::new(AtomicU32::new(1)); // replaced + reset() returned
+    let pending = Arc::new(AtomicU32::new(1)); // being written
+    let stop = Arc::new(AtomicBool::new(false));
+    let lookups = Arc::new(AtomicU64::new(0));
+    let failure: Arc<std::sync::Mutex<Option<Failure>>> = Arc::new(std::sync::Mutex::new(None));
+    let mut handles = vec![];
+    for w in 0..r.threads {
+        let (db, visible, pending, stop, lookups, failure) = (db.clone(), visible.clone(), pending.clone(), stop.clone(), lookups.clone(), failure.clone());
+        let mut sm = SplitMix(r.seed ^ (w as u64 + 1).wrapping_mul(0x9E3779B97F4A7C15));
+        handles.push(std::thread::spawn(move || {
+            while !stop.load(Ordering::Relaxed) {
+                let i = sm.below(6) as usize;
+                let q = variant(NAMES[i], sm.below(4) as u8);
+                let lo = visible.load(Ordering::SeqCst);
+                let res = crate::engine::guard("race", || db.get(&q));
+                let hi = pending.load(Ordering::SeqCst);
+                lookups.fetch_add(1, Ordering::Relaxed);
+                let bad = match res {
+                    Err(f) => Some(Failure::new(format!("concurrent-get/{}", f.sig.rsplit('/').next().unwrap_or("panic")), f.msg)),
+                    Ok(Err(e)) => Some(Failure::new("race-lookup-fails", format!("get({q:?}) failed although every version of the file contains the zone: {e}"))),
+                    Ok(Ok(tz)) => {
+                        let (id, ver) = decode(&tz);
+                        if id != i as i32 + 1 {
+                            Some(Failure::new("race-wrong-zone", format!("get({q:?}) returned the data of zone #{id}")))
+                        } else if ver < lo {
+                            Some(Failure::new("race-stale-after-reset", format!("get({q:?}) started after reset() had returned with version {lo} on disk, but returned version {ver} (a lookup that was in flight during the replacement put old data back into the cache?)")))
+                        } else if ver > hi {
+                            Some(Failure::new("race-version-from-the-future", format!("get({q:?}) returned version {ver}, newest written {hi}")))
+                        } else {
+                            None
+                        }
+                    }
+                };
+                if let Some(f) = bad {
+                    let mut g = failure.lock().unwrap();
+                    if g.is_none() {
+                        *g = Some(f);
+                    }
+                    stop.store(true, Ordering::Relaxed);
+                }
+            }
+        }));
+    }
+    let mut sm = SplitMix(r.seed ^ 0x5151);
+    let mut stalled = false;
+    for k in 2..=r.versions {
+        if stop.load(Ordering::Relaxed) {
+            break;
+        }
+        // let a few lookups (cold ones, right after the previous reset) get under way
+        let before = lookups.load(Ordering::Relaxed);
+        let want = sm.below(3);
+        let t0 = std::time::Instant::now();
+        while lookups.load(Ordering::Relaxed) < before + want && !stop.load(Ordering::Relaxed) {
+            std::thread::yield_now();
+            if t0.elapsed() > Duration::from_secs(60) {
+                stalled = true;
+                break;
+            }
+        }
+        if stalled {
+            break;
+        }
+        pending.store(k, Ordering::SeqCst);
+        write_padded_tzdata(&base, k, r.padding, k as u64);
+        db.reset();
+        visible.store(k, Ordering::SeqCst);
+    }
+    // everybody must end up on the final version
+    let t0 = std::time::Instant::now();
+    let target = lookups.load(Ordering::Relaxed) + 4 * r.threads as u64;
+    while lookups.load(Ordering::Relaxed) < target && !stop.load(Ordering::Relaxed) && t0.elapsed() < Duration::from_secs(60) {
+        std::thread::yield_now();
+    }
+    stop.store(true, Ordering::Relaxed);
+    if stalled {
+        return Err(Failure::new("HARNESS-PANIC", "no lookup completed for 60 s during the race round (hang or starved machine)"));
+    }
+    for h in handles {
+        let _ = h.join();
+    }
+    if let Some(f) = failure.lock().unwrap().take() {
+        return Err(f);
+    }
+    Ok(())
+}
+
+fn run_concat_races(rec: &Recorder, check: &'static str) {
+    let rounds = rec.tier().pick(10, 300);
+    let mut sm = SplitMix::from(rec.opts.seed, check, 0);
+    let mut n = 0u64;
+    for k in 0..rounds {
+        let r = ConcatRace { threads: [2usize, 4, 8, 16][(k % 4) as usize], versions: 40, padding: [4000u32, 20000, 60000][(k % 3) as usize], seed: sm.next() };
+        sweep_case(rec, check, &r, || run_concat_race(&r));
+        n += 1;
+        if rec.violation_count() > 0 {
+            break;
+        }
+    }
+    rec.add_evaluations(n);
+    rec.add_distinct_nontrivial(n);
+    rec.add_class("concat-race:rounds", n);
+    rec.add_sample(json!({"check": check, "case": {"threads": 8, "versions": 40, "padding_index_entries": 20000, "ttl": "1h"}}));
+}
+
+fn replay_concat_race(v: Value) -> CaseResult {
+    let r: ConcatRace = serde_json::from_value(v).map_err(|e| Failure::new("decode", e.to_string()))?;
+    run_concat_race(&r)
 }
 
 pub fn property() -> Property {
@@ -675,6 +899,7 @@ pub fn property() -> Property {
             Box::new(Prop { name: "c19.concat_history", quick: 20_000, thorough: 1_000_000, strategy: strat_chistory, test: test_chistory }),
             Box::new(Sweep { name: "c19.concurrent", run: run_concurrent, replay: replay_round }),
             Box::new(Sweep { name: "c19.reset_storm", run: run_storms, replay: replay_storm }),
+            Box::new(Sweep { name: "c19.concat_race", run: run_concat_races, replay: replay_concat_race }),
         ],
         floors: |rec| {
             rec.floor("c19.history:disk-change-then-lookup", "c19.history:cases", 0.40);
